@@ -14,7 +14,7 @@ CFG = {
         "Swat4.C12.no_leak",
         "Swat4.C12.pop_nonpositive",
     ],
-    "shards": (1, 16),
+    "shards": (4, 16),
     "nontrivial": _nontrivial,
     "rule": "(a) sequential histories of AddBetween / PopMany(n) / clock advance on the real probes repository with ready and expiry times before, "
             "at and after the clock (+-256ns); (b) a pre-filled queue, then two PopMany consumers and one producer interleaved storage command by "
